@@ -219,6 +219,8 @@ def table(I):
 
     def m_getattr(obj, name, *default):
         from .interp import PyRaise
+        if not isinstance(name, str) and hasattr(type(obj), '__getattr__'):
+            return type(obj).__getattr__(obj, name)      # abstract attribute names of model objects
         try:
             return I.getattr_(obj, name)
         except PyRaise as e:
@@ -226,7 +228,11 @@ def table(I):
                 return default[0]
             raise
     reg(getattr, m_getattr)
-    reg(setattr, lambda obj, name, v: I.setattr_(obj, name, v))
+    def m_setattr(obj, name, v):
+        if not isinstance(name, str) and '__setattr__' in type(obj).__dict__:
+            return type(obj).__setattr__(obj, name, v)
+        return I.setattr_(obj, name, v)
+    reg(setattr, m_setattr)
     reg(delattr, lambda obj, name: I.delattr_(obj, name))
     reg(hasattr, lambda obj, name: I.hasattr_(obj, name))
 
